@@ -281,7 +281,7 @@ theorem C12_monotone_beta_stream_counterexample :
     ¬ (∃ ev' ∈ infectStream cexRand cexState (cexNets (1/2)), ev'.target = 0) := by
   refine ⟨?_, ?_, ?_, ?_⟩
   · refine List.Forall₂.cons ⟨rfl, rfl, rfl, ?_, ?_, ?_, ?_⟩ List.Forall₂.nil
-    · intro e he; simp [cexNets] at he; rcases he with rfl | rfl <;> decide +kernel
+    · decide +kernel
     · intro d; cases d <;> decide +kernel
     · intro d; cases d <;> decide +kernel
     · intro h; cases h
@@ -438,40 +438,27 @@ example : NonnegRand (exNets (1/5)) ∧ NonnegFactors exState ∧ (∀ n ∈ exN
     List.Forall₂ NetLe (exNets (1/5)) (exNets (1/2)) := by
   refine ⟨?_, ?_, ?_, ?_⟩
   · intro n hn e he d
-    simp only [exNets, List.mem_cons, List.not_mem_nil, or_false] at hn
-    rcases hn with rfl | rfl | rfl <;> simp only [List.mem_cons, List.not_mem_nil, or_false] at he <;>
-      (rcases he with rfl | rfl | rfl | rfl <;> cases d <;> decide +kernel) <;> skip
-    all_goals (rcases he with rfl | rfl <;> cases d <;> decide +kernel)
+    cases d <;> revert e <;> revert n <;> decide +kernel
   · intro u
     simp only [exState]
     constructor <;> split <;> (try split) <;> decide +kernel
   · intro n hn d
-    simp only [exNets, List.mem_cons, List.not_mem_nil, or_false] at hn
-    rcases hn with rfl | rfl | rfl <;> cases d <;> decide +kernel
-  · refine List.Forall₂.cons ⟨rfl, rfl, rfl, ?_, ?_, ?_, ?_⟩
-      (List.Forall₂.cons ⟨rfl, rfl, rfl, ?_, ?_, ?_, ?_⟩ (List.Forall₂.cons ⟨rfl, rfl, rfl, ?_, ?_, ?_, ?_⟩ List.Forall₂.nil))
-    all_goals first
-      | (intro d; cases d <;> decide +kernel)
-      | (intro h; cases h)
-      | (intro _ d; cases d <;> decide +kernel)
-      | (intro e he
-         simp only [List.mem_cons, List.not_mem_nil, or_false] at he
-         rcases he with rfl | rfl | rfl | rfl <;> decide +kernel)
-      | (intro e he
-         simp only [List.mem_cons, List.not_mem_nil, or_false] at he
-         rcases he with rfl | rfl <;> decide +kernel)
-      | (intro e he
-         simp only [List.mem_cons, List.not_mem_nil, or_false] at he
-         rcases he with rfl <;> decide +kernel)
+    cases d <;> revert n <;> decide +kernel
+  · refine List.Forall₂.cons ?_ (List.Forall₂.cons ?_ (List.Forall₂.cons ?_ List.Forall₂.nil))
+    all_goals
+      refine ⟨rfl, rfl, rfl, by decide +kernel, ?_, ?_, ?_⟩
+      · intro d; cases d <;> decide +kernel
+      · intro d; cases d <;> decide +kernel
+      · intro _ d; cases d <;> decide +kernel
 
 /-- at beta 1/5: agent 2 is infected by 0 over network 0 (not by 1 over network 2, which comes later); agent 3
     (rel_sus 1/2, source rel_trans 2, p = 1/5 ≤ r1 = 3/10 on network 0) is infected over the sexual network 2 only -/
-example : infect exState (exNets (1/5)) = [⟨2, 0, 0⟩] := by decide +kernel
+example : infect exState (exNets (1/5)) = [⟨2, 0, 0⟩, ⟨3, 0, 2⟩] := by decide +kernel
 
 /-- at beta 1/2 agent 3 is infected too, by agent 1 over network 0 in direction p2→p1 -/
 example : infect exState (exNets (1/2)) = [⟨2, 0, 0⟩, ⟨3, 1, 0⟩] := by decide +kernel
 
-example : allEvents exState (exNets (1/2)) = [⟨2, 0, 0⟩, ⟨3, 1, 0⟩, ⟨2, 1, 2⟩] := by decide +kernel
+example : allEvents exState (exNets (1/2)) = [⟨2, 0, 0⟩, ⟨3, 1, 0⟩, ⟨2, 1, 2⟩, ⟨3, 0, 2⟩] := by decide +kernel
 
 def exPool : Pool := { src := [0, 1, 5], dst := [2, 3, 4, 5], beta := 1/2, contacts := fun u => if u = 3 then 0 else 2 }
 
